@@ -34,7 +34,7 @@
 //@ end
 //@ fn src/wasm.rs :: WasmKeeper :: get_env
 //@   ret r
-//@   ensures [C05.env.sem] r == env_of(address, *block)
+//@   ensures [C05.env.sem,C19] r == env_of(address, *block)
 //@   replace "fn get_env<T: Into<Addr>>(&self, address: T," => "fn get_env(&self, address: Addr,"
 //@   replace "address: address.into()," => "address: address,"
 //@ end
